@@ -126,7 +126,7 @@ def handle (j : Json) : Json :=
         ("map", pairsJson res.map), ("full", pairsJson res.full), ("min", toJson res.first),
         ("perm", match res.perm with | none => .null | some p => toJson p),
         ("inv", match res.inv with | none => .null | some p => toJson p),
-        ("cs", toJson res.cs), ("heralds", pairsJson res.heralds),
+        ("cs", toJson res.cs), ("conn", toJson res.conn), ("heralds", pairsJson res.heralds),
         ("dets", .arr (res.dets.map fun d => match d with | none => Json.null | some s => .str s).toArray),
         ("in_names", optNames (portNames res.cs res.inp)),
         ("out_names", optNames (portNames res.cs res.outp)),
